@@ -69,10 +69,10 @@ fn variants(thorough: bool) -> Vec<Variant> {
     // built from must be the state
     v.push(Variant { prob: base(Base::Spiral(0.0, 400.0)), span: 0.05, scales: vec![1.0] });
     v.push(Variant { prob: base(Base::Spiral(0.0, 4.0e4)), span: 5e-4, scales: vec![1.0] });
-    // the same oscillator and decay with time measured in a unit 2^40 times smaller (spans of 3e12, derivatives of 1e-12):
+    // the same oscillator and decay with time measured in a unit 2^40 times smaller (spans of 2e12 and 4e13 - forty radians, long enough for the step controller to leave its start-up ramp -, derivatives of 1e-12):
     // an exact change of variable; nothing in the error control may depend on the unit of time
     let c40 = 2f64.powi(-40);
-    v.push(Variant { prob: crate::problems::timescale(&base(Base::Harmonic(1.0)), c40), span: 3.0 / c40, scales: vec![1.0] });
+    v.push(Variant { prob: crate::problems::timescale(&base(Base::Harmonic(1.0)), c40), span: 40.0 / c40, scales: vec![1.0] });
     v.push(Variant { prob: crate::problems::timescale(&base(Base::Decay(-1.0)), c40), span: 2.0 / c40, scales: vec![1.0, 1e-3] });
     v
 }
